@@ -214,7 +214,7 @@ func (c *Ctx) ownRun() map[string]*simpleVerdict {
 		boxObj, _ := m.Call(newVariant, mIface{t: boxT, v: mStruct{mIface{t: types.NewSlice(types.Typ[types.Int]), v: mSlice{[]mv{int64(1)}}}}})
 		return map[string]mv{
 			"Object struct holding a slice": boxObj,
-			"Integer 1": mkInt(1), "Integer 2": mkInt(2), "Long 1": h.variant("Long", int64(1)), "String a": h.variant("String", lit("a")), "String ''": h.variant("String", lit("")),
+			"Integer 1":                     mkInt(1), "Integer 2": mkInt(2), "Long 1": h.variant("Long", int64(1)), "String a": h.variant("String", lit("a")), "String ''": h.variant("String", lit("")),
 			"Null": h.variant("Null", nil), "Boolean true": h.variant("Boolean", true), "Double 1.5": h.variant("Double", float64(1.5)), "Double NaN": nan,
 			"Array [1 2]": arr(1, 2), "Array [1 3]": arr(1, 3), "Array []": arr(), "Array [[1 2] 3]": nested, "Object map": mapObj, "Object slice": sliceObj,
 			"TimeSpan 5": h.variant("TimeSpan", int64(5)),
